@@ -76,6 +76,7 @@ type qOp struct {
 	W      rl     `json:"w,omitempty"`
 	Req    rl     `json:"req,omitempty"`
 	NonPre bool   `json:"nonpre,omitempty"`
+	Early  bool   `json:"early,omitempty"` // pod_create: the label names a quota that does not exist (yet); the pod lives in the default quota until the quota appears
 	Fail   bool   `json:"bind_fails,omitempty"`
 	Serial bool   `json:"serial,omitempty"` // scheduling attempt executed while nothing else runs (strict verdict oracle)
 	Barr   bool   `json:"barrier,omitempty"`
@@ -240,9 +241,17 @@ func (s *qStore) apply(op *qOp) (evs []qEvent, ok bool) {
 		if !s.admissible(q) {
 			return nil, false
 		}
+		early := s.podsIn(op.Q) > 0 // pods created before their quota: they move in from the default quota
+		if early && op.IsPar {
+			return nil, false // pods live in leaf quotas
+		}
 		s.rv++
 		q.rv = s.rv
 		s.quotas[q.Name] = q
+		if early {
+			// their usage never went through admission against this quota (C03's "used within max" is about admitted pods)
+			s.suspendChain(q.Name)
+		}
 		return []qEvent{{"add", "quota", nil, q.obj()}}, true
 	case "quota_update":
 		old := s.quotas[op.Q]
@@ -298,7 +307,7 @@ func (s *qStore) apply(op *qOp) (evs []qEvent, ok bool) {
 		}
 		if q := s.quotas[op.Q]; q == nil || q.IsPar {
 			// pods live in leaf quotas (or the default quota when the label names no quota: op.Q=="none")
-			if op.Q != "none" {
+			if op.Q != "none" && !(op.Early && q == nil) {
 				return nil, false
 			}
 		}
@@ -636,6 +645,11 @@ func (quotaEngine) Generate(p *sim.Plan, g *sim.Rng) {
 			if q == "" || g.Bool(0.05) {
 				q = "none"
 			}
+			early := false
+			if g.Bool(0.06) {
+				// the pod is created before its quota (the next quota name the generator will use)
+				q, early = fmt.Sprintf("q%d", nq), true
+			}
 			name := fmt.Sprintf("p%d", np)
 			np++
 			req := genRL(g, big, 100, 6000)
@@ -648,7 +662,7 @@ func (quotaEngine) Generate(p *sim.Plan, g *sim.Rng) {
 			if g.Bool(0.1) {
 				delete(req, "memory")
 			}
-			if add(qOp{K: "pod_create", P: name, Q: q, Req: req, NonPre: g.Bool(0.2)}) {
+			if add(qOp{K: "pod_create", P: name, Q: q, Req: req, NonPre: g.Bool(0.2), Early: early}) {
 				pNames = append(pNames, name)
 			}
 		case x < 74:
